@@ -34,7 +34,9 @@ def run(ctx):
         g = cfg_of(ex.node)
         rn = [n for call in self_calls_in(ex, "_resolve_history_target") for n in cfg_node_of(ex, call)]
         xn = [n for call in self_calls_in(ex, "_exit_states") for n in cfg_node_of(ex, call)]
-        c.floor("R6", f"history resolution / exit sites in {ex.short}", min(len(rn), len(xn)), 1)
+        c.expect("R6", f"history resolution sites in {ex.short}", len(rn), 1, ex, f"{ex.short} no longer resolves a history target through _resolve_history_target: a transition to a history state enters the pseudo-state itself or nothing")
+        if not xn:
+            continue
         late = [r_ for r_ in rn if any(g.can_reach(x_, r_, follow_exc=False) for x_ in xn)]
         c.ob("R6", not late, ex, "resolve-history-before-exit",
              "the remembered configuration is read before _exit_states (which re-records history) runs" if not late else
@@ -64,7 +66,7 @@ def run(ctx):
     # ---- R8 the record keeps every active descendant (shallow AND deep need it) -----------------
     rec_f = p.method("BaseInterpreter", "_record_history")
     stores = [x for x in own_nodes(rec_f.node) if isinstance(x, ast.Assign) and isinstance(x.targets[0], ast.Subscript) and "_history" in norm(x.targets[0].value)]
-    c.floor("R8", "stores into _history", len(stores), 1)
+    c.expect("R8", "stores into _history", len(stores), 1, rec_f, "_record_history no longer stores anything: history states always fall back to their default")
     for x in stores:
         val = x.value
         if isinstance(val, ast.Name):
